@@ -142,7 +142,8 @@ def noPairSplit (a b : List Nat) : Prop :=
 
 instance (a b : List Nat) : Decidable (noPairSplit a b) := by unfold noPairSplit; infer_instance
 
-/-- adjacent segments never separate a high surrogate from its low surrogate -/
+/-- adjacent segments never separate a high surrogate from its low surrogate (not a condition of `Legal` any
+    more — the reader decodes the units of all segments at once since fix 6b3ea5c; kept for `segments_decode_as_whole`) -/
 def pairsKept : List (List Nat) → Prop
   | a :: b :: rest => noPairSplit a b ∧ pairsKept (b :: rest)
   | _ => True
@@ -189,13 +190,12 @@ structure EntryOk (e : Entry) (ly : EntryLayout) : Prop where
   /-- rgRun is a whole number (< 65536) of 4-byte FormatRuns -/
   runsLen : runsLenOk e.runs
   extLen : extLenOk e.ext
-  /-- every continuation segment holds at least one character -/
-  segsNonempty : ∀ s ∈ (segments e ly).tail, s ≠ []
+  /-- the last continuation segment holds at least one character (a CONTINUE record is opened only while
+      characters are owed); the ones before it may hold the flag byte alone -/
+  segsLast : ∀ s, (segments e ly).tail.getLast? = some s → s ≠ []
   /-- 8-bit packing only for segments whose units are all < 0x100 -/
   pack0 : packOk ((segments e ly).headD [], ly.wide0)
   packs : ∀ p ∈ (segments e ly).tail.zip (ly.cuts.map (·.2)), packOk p
-  /-- surrogate pairs stay in one segment -/
-  pairs : pairsKept (segments e ly)
   /-- every CONTINUE record opened inside rgRun / ExtRst holds at least one byte of the block -/
   runsOk : blockOk e.runs ly.runCuts
   extOk : blockOk e.ext ly.extCuts
@@ -204,12 +204,12 @@ instance (e : Entry) (ly : EntryLayout) : Decidable (EntryOk e ly) :=
   decidable_of_iff
     ((∀ u ∈ e.units, u < 65536) ∧ e.units.length < 65536
       ∧ runsLenOk e.runs ∧ extLenOk e.ext
-      ∧ (∀ s ∈ (segments e ly).tail, s ≠ [])
+      ∧ (∀ s, (segments e ly).tail.getLast? = some s → s ≠ [])
       ∧ packOk ((segments e ly).headD [], ly.wide0)
       ∧ (∀ p ∈ (segments e ly).tail.zip (ly.cuts.map (·.2)), packOk p)
-      ∧ pairsKept (segments e ly) ∧ blockOk e.runs ly.runCuts ∧ blockOk e.ext ly.extCuts)
-    ⟨fun ⟨a, b, c, d, e5, f, g, h, i, j⟩ => ⟨a, b, c, d, e5, f, g, h, i, j⟩,
-     fun ⟨a, b, c, d, e5, f, g, h, i, j⟩ => ⟨a, b, c, d, e5, f, g, h, i, j⟩⟩
+      ∧ blockOk e.runs ly.runCuts ∧ blockOk e.ext ly.extCuts)
+    ⟨fun ⟨a, b, c, d, e5, f, g, i, j⟩ => ⟨a, b, c, d, e5, f, g, i, j⟩,
+     fun ⟨a, b, c, d, e5, f, g, i, j⟩ => ⟨a, b, c, d, e5, f, g, i, j⟩⟩
 
 /-- all entries fit their layouts (one layout per entry) -/
 def TableOk : List Entry → List EntryLayout → Prop
